@@ -43,7 +43,42 @@ const (
 
 	RFC3339     = time.RFC3339
 	RFC3339Nano = time.RFC3339Nano
+	Layout      = time.Layout
+	ANSIC       = time.ANSIC
+	UnixDate    = time.UnixDate
+	RubyDate    = time.RubyDate
+	RFC822      = time.RFC822
+	RFC822Z     = time.RFC822Z
+	RFC850      = time.RFC850
+	RFC1123     = time.RFC1123
+	RFC1123Z    = time.RFC1123Z
+	Kitchen     = time.Kitchen
+	Stamp       = time.Stamp
+	StampMilli  = time.StampMilli
+	StampMicro  = time.StampMicro
+	StampNano   = time.StampNano
+	DateTime    = time.DateTime
+	DateOnly    = time.DateOnly
+	TimeOnly    = time.TimeOnly
+
+	Sunday    = time.Sunday
+	Monday    = time.Monday
+	Tuesday   = time.Tuesday
+	Wednesday = time.Wednesday
+	Thursday  = time.Thursday
+	Friday    = time.Friday
+	Saturday  = time.Saturday
 )
+
+// ParseInLocation is time.ParseInLocation.
+func ParseInLocation(layout, value string, loc *Location) (Time, error) {
+	return time.ParseInLocation(layout, value, loc)
+}
+
+// LoadLocationFromTZData is time.LoadLocationFromTZData.
+func LoadLocationFromTZData(name string, data []byte) (*Location, error) {
+	return time.LoadLocationFromTZData(name, data)
+}
 
 // Locations.
 var (
@@ -230,7 +265,7 @@ func UnixMicro(us int64) Time   { return time.UnixMicro(us) }
 func Date(year int, month Month, day, hour, min, sec, nsec int, loc *Location) Time {
 	return time.Date(year, month, day, hour, min, sec, nsec, loc)
 }
-func Parse(layout, value string) (Time, error)        { return time.Parse(layout, value) }
-func ParseDuration(s string) (Duration, error)        { return time.ParseDuration(s) }
-func FixedZone(name string, offset int) *Location     { return time.FixedZone(name, offset) }
-func LoadLocation(name string) (*Location, error)     { return time.LoadLocation(name) }
+func Parse(layout, value string) (Time, error)    { return time.Parse(layout, value) }
+func ParseDuration(s string) (Duration, error)    { return time.ParseDuration(s) }
+func FixedZone(name string, offset int) *Location { return time.FixedZone(name, offset) }
+func LoadLocation(name string) (*Location, error) { return time.LoadLocation(name) }
